@@ -520,13 +520,14 @@ func runCase(c Case, bound time.Duration) result {
 	}
 	var ticks, post, postP atomic.Int64
 	var cancelled, runaway atomic.Bool
-	var cancelAt atomic.Int64
+	var cancelAt, returnAt atomic.Int64 // on the monotonic clock, relative to base
+	base := time.Now()
 	ctx, cancel := context.WithCancel(context.Background())
 	defer cancel()
 	enteredCh := make(chan struct{})
 	var enteredOnce sync.Once
 	doCancel := func() {
-		cancelAt.Store(time.Now().UnixNano())
+		cancelAt.Store(int64(time.Since(base)) + 1)
 		cancel()
 		// only now is the cancellation visible to every statement that starts: host calls
 		// are counted as "after the cancellation" from here on
@@ -633,6 +634,7 @@ func runCase(c Case, bound time.Duration) result {
 	go func() {
 		defer close(done)
 		_, err := vm.ExecuteContext(ctx, e, nil, src)
+		returnAt.Store(int64(time.Since(base)) + 1)
 		res.err = err
 		res.returned = true
 	}()
@@ -657,8 +659,10 @@ func runCase(c Case, bound time.Duration) result {
 	}
 	select {
 	case <-done:
-		if at := cancelAt.Load(); at != 0 {
-			res.lateness = time.Since(time.Unix(0, at))
+		// the time between the cancellation and the return of the call itself (both taken on the monotonic clock,
+		// the second on the goroutine that made the call)
+		if at := cancelAt.Load(); at != 0 && returnAt.Load() > at {
+			res.lateness = time.Duration(returnAt.Load() - at)
 		}
 	default:
 		res.returned = false
@@ -795,6 +799,19 @@ func oracle(c Case, o *h.Obs) *h.Fail {
 			return nil
 		}
 		return f
+	}
+	if r.lateness > bound && !ctxRef.InReplay() {
+		// a late return is confirmed by running the case once more before it is reported (a stall of the machine
+		// is not the interpreter's); a case that is not late again is counted and not judged
+		r = runCase(c, bound)
+		if r.infra != "" || !r.cancelled || (r.returned && r.lateness <= bound) {
+			o.Excluded = "late return not confirmed when the case was run again"
+			ctxRef.AddClass(fmt.Sprintf("late_return_not_confirmed_%s", c.Core), 1)
+			return nil
+		}
+		if !r.returned {
+			r.lateness = bound + 2*time.Second
+		}
 	}
 	if r.lateness > bound {
 		// every re-execution costs seconds: reported as found, unshrunk, once per core
